@@ -180,11 +180,24 @@ func runC08Net(c *fw.Ctx, id string, v refmatch.Variant, nb netBehaviour, w wind
 // (2) cancellation of engine runs
 
 func runC08CancelEngine(c *fw.Ctx, id string, parallel bool, at time.Duration, silent bool) {
+	runC08CancelEngineScript(c, id, parallel, at, silent, false)
+}
+
+// destSoon: the destination's reply for TTL 3 is on its way (80 ms after that probe) when the context is cancelled (50 ms
+// after it): the run reads it within the poll that was in progress - and has still been cancelled
+func runC08CancelEngineScript(c *fw.Ctx, id string, parallel bool, at time.Duration, silent, destSoon bool) {
 	p := engParams{first: 1, last: 6, timeout: 3 * time.Second, poll: 100 * time.Millisecond, delay: 50 * time.Millisecond}
 	var script []scripted.Reply
 	if !silent {
 		for t := 1; t <= 6; t++ {
-			script = append(script, scripted.Reply{Rel: true, At: time.Duration(20+t) * time.Millisecond, TTL: uint8(t), Addr: hopAddr(uint8(t), 0)})
+			r := scripted.Reply{Rel: true, At: time.Duration(20+t) * time.Millisecond, TTL: uint8(t), Addr: hopAddr(uint8(t), 0)}
+			if destSoon && t == 3 {
+				r.At, r.Dest = 80*time.Millisecond, true
+			}
+			if destSoon && t > 3 {
+				continue
+			}
+			script = append(script, r)
 		}
 	}
 	d := scripted.New(parallel, script)
@@ -200,7 +213,7 @@ func runC08CancelEngine(c *fw.Ctx, id string, parallel bool, at time.Duration, s
 	}
 	res, err := runEngine(ctx, parallel, d, p)
 	ret := time.Now()
-	tag := fmt.Sprintf("%s engine=%s cancel@%v silent=%v", id, engName(parallel), at, silent)
+	tag := fmt.Sprintf("%s engine=%s cancel@%v silent=%v dest-reply-on-its-way=%v", id, engName(parallel), at, silent, destSoon)
 	if cancelledAt.IsZero() || ret.Before(cancelledAt) {
 		// the run finished before the cancel instant: nothing to judge
 		c.Count("cancel_after_completion", 1)
@@ -778,6 +791,10 @@ func checkC08() fw.Check {
 						par, silent := par, silent
 						id := fmt.Sprintf("C08/cancel-engine/%d/%s/silent%v", i, engName(par), silent)
 						cases = append(cases, fw.Case{ID: id, Bubble: true, Run: func(c *fw.Ctx) { runC08CancelEngine(c, id, par, at, silent) }})
+						if !silent && (at == 150*time.Millisecond-time.Microsecond || at == 150*time.Millisecond) {
+							id2 := id + "/dest-reply-on-its-way"
+							cases = append(cases, fw.Case{ID: id2, Bubble: true, Run: func(c *fw.Ctx) { runC08CancelEngineScript(c, id2, par, at, false, true) }})
+						}
 					}
 				}
 				if i%3 == 0 || tier == "thorough" {
